@@ -272,7 +272,7 @@ def genExpr (ctx : Ctx) : AExpr → Reg → M Code
       else do
         let sym ← (ctx.tbl.lookup ctx.scope f : Except Diag Symbol)
         pure (if sym.type = .func then CallKind.func f else CallKind.proc f)
-    callSeq kind args.length (countCalls args) (genCallActuals ctx args) (loadActuals ctx args)
+    callSeq kind args.length (countCalls args) (genCallActuals ctx args) (fun p s => loadActuals ctx args p s)
   | .un op e c, reg =>
     match c with
     | some v => genConst reg v
@@ -410,7 +410,7 @@ def genStmt (ctx : Ctx) : AStmt → M Code
           [iLDBM SP_OFFSET, .fb .ldbi ctx.frame (-(stackOffset : Int)), iSTAI 0])
   | .call sys f args =>
     let kind := if sys ≠ -1 then CallKind.sys sys else CallKind.proc f
-    callSeq kind args.length (countCalls args) (genCallActuals ctx args) (loadActuals ctx args)
+    callSeq kind args.length (countCalls args) (genCallActuals ctx args) (fun p s => loadActuals ctx args p s)
 def genStmts (ctx : Ctx) : List AStmt → M Code
   | [] => pure []
   | s :: ss => do
